@@ -44,6 +44,8 @@ def cfgs(tier, seed):
         for preserve in (False, True):
             shards.append({'kind': 'helper', 'dlm': dlm, 'syms': syms, 'preserve': preserve, 'maxlen': multi, 'first': None, 'all': True})
         shards.append({'kind': 'public', 'dlm': dlm, 'syms': syms, 'policy': 'quoted', 'maxlen': pub})
+    for dlm in [',', '\t', '::']:
+        shards.append({'kind': 'atoms', 'dlm': dlm, 'o': o[0], 'maxatoms': 5 if tier == 'thorough' else 4})
     # the other policies at helper level
     shards.append({'kind': 'plain', 'syms': ['"', ',', ' ', o[0]], 'maxlen': big - 1})
     # whitespace policy: only U+0020 separates; tab, NBSP, vertical tab and a Unicode space are ordinary characters
@@ -60,7 +62,7 @@ def diagnose(dlm, line):
 def run_shard(sh):
     res = core.Result()
     split = tree.split_function()
-    if sh['kind'] in ('helper', 'plain') and split is None:
+    if sh['kind'] in ('helper', 'plain', 'atoms') and split is None:
         res.feat('helper_level_absent')      # refactored away: the public reader path (kind 'public') still decides the property
         return res
     if sh['kind'] == 'helper':
@@ -125,6 +127,32 @@ def run_shard(sh):
             res.states += 1
             if line:
                 res.transitions += 1
+        return res
+    if sh['kind'] == 'atoms':
+        # scale probe: every sequence of 3..k field "atoms" joined by the delimiter - lines of up to ~40 characters, far beyond the exhaustive length bound
+        dlm = sh['dlm']
+        o = sh['o']
+        atoms = ['', o, '"' + o + '"', '"' + o + '""' + o + '"', ' "' + o + '" ', o + '"' + o, '"', '"' + o + dlm + o + '"', '"' + o + '"' + o, ' ' + o + ' ']
+        for k in range(3, sh['maxatoms'] + 1):
+            for tup in itertools.product(atoms, repeat=k):
+                line = dlm.join(tup)
+                for preserve in (False, True):
+                    res.evaluations += 1
+                    res.states += 1
+                    res.transitions += 1
+                    exp = refcsv.ref_split_quoted(line, dlm, preserve)
+                    try:
+                        got = split(line, dlm, 'quoted', preserve)
+                        got = (list(got[0]), bool(got[1]))
+                    except Exception as e:
+                        got = ('EXC', repr(e))
+                    res.traces += 1
+                    res.nontrivial += 1
+                    res.feat('long_lines')
+                    ok = got == (exp[0], exp[1]) and (not preserve or dlm.join(got[0]) == line)
+                    if not ok:
+                        res.violation(diagnose(dlm, line), {'kind': 'helper', 'line': line, 'dlm': dlm, 'preserve': preserve}, exp, got)
+        res.sample({'line_of_atoms': dlm.join(atoms[2:7]), 'dlm': dlm})
         return res
     if sh['kind'] == 'public':
         rc = tree.csvmod()
